@@ -13,4 +13,8 @@ ASSUME \A i \in 1..Len(Programs) :
             /\ \A r \in DOMAIN Pg.univ : \A j \in 1..Len(Pg.univ[r]) : Len(Pg.univ[r][j]) = ar(r)
             /\ \A r \in DOMAIN Pg.files : \A j \in 1..Len(Pg.files[r]) : Len(Pg.files[r][j]) = ar(r)
             /\ \A r \in DOMAIN Pg.probe : \A j \in 1..Len(Pg.probe[r]) : Len(Pg.probe[r][j]) = ar(r)
+\* exploration bound: call sequences of at most MaxDepth state-changing calls (queries are self loops and do not count);
+\* TLC's breadth-first level of a state is the length of the shortest call sequence reaching it
+CONSTANT MaxDepth
+Bounded == TLCGet("level") <= MaxDepth
 =============================================================================
